@@ -23,34 +23,34 @@ From RecordUpdate Require Import RecordUpdate.
 Import RecordSetNotations.
 
 Theorem C01_remove_shards_perm : forall l l' , Permutation l l' -> forall s, remove_shards l s = remove_shards l' s.
-Proof. exact remove_shards_perm. Qed.
+Proof. first [exact remove_shards_perm | apply remove_shards_perm]. Qed.
 Print Assumptions C01_remove_shards_perm.
 
 Theorem C01_remove_shards_dedup : forall l s, remove_shards (dedupZ l) s = remove_shards l s.
-Proof. exact remove_shards_dedup. Qed.
+Proof. first [exact remove_shards_dedup | apply remove_shards_dedup]. Qed.
 Print Assumptions C01_remove_shards_dedup.
 
 Theorem C01_pg_only_staking : forall cx s op, (forall evs, op <> OStaking evs) -> (forall evs, op <> OSimulate evs) ->
   (forall evs, op = OEndBlock evs -> evs = []) -> pg (fst (step cx s op)) = pg s.
-Proof. exact pg_only_staking. Qed.
+Proof. first [exact pg_only_staking | apply pg_only_staking]. Qed.
 Print Assumptions C01_pg_only_staking.
 
 Theorem C01_restart_equiv : forall tr s, pg s = 0 -> run tr (restart s) = run tr s.
-Proof. exact restart_equiv. Qed.
+Proof. first [exact restart_equiv | apply restart_equiv]. Qed.
 Print Assumptions C01_restart_equiv.
 
 Theorem C01_failed_delegate_residue : forall cx s del val sh, del_shares s del val = Some sh ->
   fst (step cx s (OStaking (ev_delegate_fails del val))) = s <| pg := sh |>.
-Proof. exact failed_delegate_residue. Qed.
+Proof. first [exact failed_delegate_residue | apply failed_delegate_residue]. Qed.
 Print Assumptions C01_failed_delegate_residue.
 
 Theorem C01_simulate_residue : forall cx s del val sh, del_shares s del val = Some sh ->
   fst (step cx s (OSimulate (ev_delegate_fails del val))) = s <| pg := sh |>.
-Proof. exact simulate_residue. Qed.
+Proof. first [exact simulate_residue | apply simulate_residue]. Qed.
 Print Assumptions C01_simulate_residue.
 
 Theorem C01_restart_equiv_refuted : exists cx s op, pg s <> 0 /\ nodes (fst (step cx (restart s) op)) <> nodes (fst (step cx s op)).
-Proof. exact restart_equiv_refuted. Qed.
+Proof. first [exact restart_equiv_refuted | apply restart_equiv_refuted]. Qed.
 Print Assumptions C01_restart_equiv_refuted.
 
 Theorem C01_d10_crash_restart_divergence :
@@ -59,13 +59,13 @@ Theorem C01_d10_crash_restart_divergence :
   pg (d10_state 0) = 0 /\
   n_role <$> nodes (run tr2 (run tr1 (d10_state 0))) !! "N" = Some 1 /\
   n_role <$> nodes (run tr2 (restart (run tr1 (d10_state 0)))) !! "N" = Some 0.
-Proof. exact d10_crash_restart_divergence. Qed.
+Proof. first [exact d10_crash_restart_divergence | apply d10_crash_restart_divergence]. Qed.
 Print Assumptions C01_d10_crash_restart_divergence.
 
 Theorem C01_step_keeps_nparams : forall cx s op, nparams (fst (step cx s op)) = nparams s.
-Proof. exact step_keeps_nparams. Qed.
+Proof. first [exact step_keeps_nparams | apply step_keeps_nparams]. Qed.
 Print Assumptions C01_step_keeps_nparams.
 
 Theorem C01_step_keeps_did : forall cx s op, (forall o, op <> ODid o) -> did (fst (step cx s op)) = did s.
-Proof. exact step_keeps_did. Qed.
+Proof. first [exact step_keeps_did | apply step_keeps_did]. Qed.
 Print Assumptions C01_step_keeps_did.
